@@ -277,6 +277,12 @@ func TestVerifC19(t *testing.T) {
 	for i := range universe {
 		filters = append(filters, filt{has: true, vote: &tr, fail: &tr, inc: []string{str(universe[i])}})
 	}
+	// the program accounts every transaction names (the all-zero System Program key is the smallest key of
+	// any address index: its list is the first record of the log)
+	for _, pk := range []solana.PublicKey{solana.SystemProgramID, solana.TokenProgramID, solana.VoteProgramID} {
+		filters = append(filters, filt{has: true, inc: []string{pk.String()}})
+		filters = append(filters, filt{has: true, vote: &fa, inc: []string{pk.String(), str(universe[1])}})
+	}
 	var rc c19Case
 	replay := ev.LoadReplay(&rc)
 
@@ -288,6 +294,7 @@ func TestVerifC19(t *testing.T) {
 		copy(s[:], raw[1:65])
 		return s.String()
 	}
+	nCapKnown := 0
 	for _, w := range worlds {
 		for ri, r := range ranges {
 			end := r.s + 100 // the server's default window when end is absent
@@ -341,17 +348,25 @@ func TestVerifC19(t *testing.T) {
 					key := "StreamTransactions/" + c19Classify(got, want)
 					if w.gsfa && len(f.inc) > 0 {
 						key += "(index-path)"
-						// the index path asks the address index for at most 100 entries per included account
+						// the known finding, exactly: the index path asks the address index for the newest 100
+						// in-range entries of each included account and never pages.  Only a stream that equals
+						// what that cap produces is attributed to it; any other difference is reported as such.
 						over := false
+						keepSig := map[string]bool{}
 						for _, a := range f.inc {
 							n := 0
-							for _, b := range blocks {
+							for bi := len(blocks) - 1; bi >= 0; bi-- {
+								b := blocks[bi]
 								if b.Slot < r.s || b.Slot > end {
 									continue
 								}
-								for _, tx := range b.Txs {
+								for ti := len(b.Txs) - 1; ti >= 0; ti-- {
+									tx := b.Txs[ti]
 									if any, _ := c19Mentions(tx, []string{a}); any {
 										n++
+										if n <= 100 {
+											keepSig[tx.Sig.String()] = true
+										}
 									}
 								}
 							}
@@ -359,8 +374,23 @@ func TestVerifC19(t *testing.T) {
 								over = true
 							}
 						}
-						if over && c19Classify(got, want) == "missing" {
-							key = "StreamTransactions/index-path-caps-at-100-per-account"
+						if over {
+							var capped []string
+							for _, sg := range want {
+								if keepSig[sg] {
+									capped = append(capped, sg)
+								}
+							}
+							if strings.Join(got, ",") == strings.Join(capped, ",") {
+								key = "StreamTransactions/index-path-caps-at-100-per-account"
+								nCapKnown++
+								if nCapKnown > 5 {
+									// one defect, already reported with five witnesses: do not let it use up the
+									// violation budget of the run
+									rec.Count("index_path_cap_repeats", 1)
+									continue
+								}
+							}
 						}
 					} else {
 						key += "(scan-path)"
